@@ -23,7 +23,7 @@ sequence — eager ignores it, lazy reports `ItemEnd`; the input ending inside a
 ends gracefully, lazy reports the error; an offset table item that is cut short or whose length is not a
 multiple of 4), the two runs have the same number of tokens, every token is the same (an `OffsetTable` of the
 eager reader is the `ItemValue` of the same bytes), and they end the same way (end of data, or corresponding
-errors; where the eager reader reports `UnexpectedItemHeader` the lazy reader panics in `expect`).
+errors — the same error of the shared decoder / reader error type).
 Proved as a lock-step simulation on the shared state fields (`LE.step_sim`), then by induction on the run. -/
 theorem lazy_eq_eager (ts : Syntax) (dict : Tag → Option VR) (bs : Bytes) (fuel : Nat)
     (h : (eagerRunA fuel (RState.new ts dict bs)).2.2 = false) :
@@ -185,11 +185,10 @@ theorem read_until_wins (stop tag : Tag) : stopAt (some stop) (some stop) tag = 
       rw [this] at h; cases h
   · simp
 
-/-! ### where the collector falsifies the statement (recorded findings): witnesses on the model
+/-! ### regression witnesses of the three repaired collector defects (fixes 1b02116, 4dbd2d8)
 
-`fragments_one_by_one` and "collector = whole file" do NOT hold for the unchanged code; the three
-counterexamples found by the correspondence run, replayed on the models (the models reproduce the
-implementation on every generated case). -/
+Before the fixes `fragments_one_by_one` and "collector = whole file" were false; the three counterexamples
+found by the correspondence run, replayed on the models of the repaired code. -/
 
 /-- tokens of the elements a read returned (comparison form) -/
 def elemsTokens (r : Except CErr (List Elem × Coll)) : Option (List Token) :=
@@ -209,13 +208,13 @@ def witnessZeroFragment : Bytes :=
    0xfe, 0xff, 0x00, 0xe0, 0, 0, 0, 0,
    0xfe, 0xff, 0xdd, 0xe0, 0, 0, 0, 0]
 
-/-- finding `collector-drops-zero-length-fragment`: the whole-file read keeps the empty fragment, the
-collector loses it -/
+/-- was finding `collector-drops-zero-length-fragment`: the collector keeps the empty fragment like the
+whole-file read -/
 theorem collector_drops_zero_length_fragment_witness :
     wholeTokens (readDataset .explicitLE (fun _ => none) witnessZeroFragment) =
       some (Elems.tokens (.cons (.pix [0] [[]]) .nil)) ∧
     elemsTokens ((Coll.new .explicitLE (fun _ => none) witnessZeroFragment).readDatasetToEnd 42) =
-      some (Elems.tokens (.cons (.pix [0] []) .nil)) := by
+      some (Elems.tokens (.cons (.pix [0] [[]]) .nil)) := by
   constructor <;> decide +kernel
 
 /-- Explicit VR LE: Pixel Data, EMPTY offset table, one fragment 01 02 03 04 -/
@@ -225,12 +224,12 @@ def witnessEmptyTable : Bytes :=
    0xfe, 0xff, 0x00, 0xe0, 4, 0, 0, 0, 1, 2, 3, 4,
    0xfe, 0xff, 0xdd, 0xe0, 0, 0, 0, 0]
 
-/-- finding `collector-empty-offset-table-takes-first-fragment` -/
+/-- was finding `collector-empty-offset-table-takes-first-fragment` -/
 theorem collector_empty_offset_table_witness :
     wholeTokens (readDataset .explicitLE (fun _ => none) witnessEmptyTable) =
       some (Elems.tokens (.cons (.pix [] [[1, 2, 3, 4]]) .nil)) ∧
     elemsTokens ((Coll.new .explicitLE (fun _ => none) witnessEmptyTable).readDatasetToEnd 42) =
-      some (Elems.tokens (.cons (.pix [67305985] []) .nil)) := by
+      some (Elems.tokens (.cons (.pix [] [[1, 2, 3, 4]]) .nil)) := by
   constructor <;> decide +kernel
 
 /-- Explicit VR LE: Pixel Data (empty table, fragment 01 02) followed by (FFFC,FFFC) OB 09 09 -/
@@ -249,10 +248,10 @@ def fragmentCalls : Nat → Coll → List (Option (Nat × Bytes))
     | .ok (r, c') => r :: fragmentCalls n c'
     | .error _ => []
 
-/-- finding `fragment-after-pixeldata-end`: the third "fragment" is the value of the element after Pixel Data -/
+/-- was finding `fragment-after-pixeldata-end`: after the last fragment there is nothing, again and again -/
 theorem fragment_after_pixeldata_end_witness :
     fragmentCalls 4 (Coll.new .explicitLE (fun _ => none) witnessTrailing) =
-      [some (0, []), some (2, [1, 2]), some (2, [9, 9]), none] := by
+      [some (0, []), some (2, [1, 2]), none, none] := by
   decide +kernel
 
 end Dicom.C06
